@@ -17,7 +17,7 @@ for p in props:
     if not os.path.exists(f):
         continue
     P = importlib.import_module(pid.lower()).PROP
-    if not getattr(P, "claimed", True):
+    if not getattr(P, "claimed", False):
         continue
     claimed.add(pid)
     checks.append({
